@@ -56,7 +56,7 @@ Conforms(a, b) ==
 
 KindType(k) == CASE k = "null" -> "Null" [] k = "num" -> "number" [] k = "str" -> "string"
                  [] k = "bool" -> "boolean" [] k = "date" -> "date" [] k = "time" -> "time"
-                 [] k = "dt" -> "dt" [] k = "dtd" -> "dtd" [] k = "ymd" -> "ymd"
+                 [] k = "dt" -> "dt" [] k = "dtd" -> "dtd" [] k = "ymd" -> "ymd" [] OTHER -> "other"
 
 RECURSIVE TypeOf(_)
 TypeOf(v) ==
